@@ -186,7 +186,7 @@ def array_dcg(scores: NDArray[np.number], discount: Discount = np.log2):
     scores = np.nan_to_num(scores)
     ranks = np.arange(1, len(scores) + 1)
     disc = discount(ranks)
-    disc = np.maximum(disc, 1)
+    disc = np.maximum(disc, 1.0)
     disc = np.reciprocal(disc)
     return np.dot(scores, disc)
 
@@ -199,6 +199,6 @@ def fixed_dcg(n: int, discount: Discount = np.log2):
 
     ranks = np.arange(1, n + 1)
     disc = discount(ranks)
-    disc = np.maximum(disc, 1)
+    disc = np.maximum(disc, 1.0)
     disc = np.reciprocal(disc)
     return np.sum(disc)
